@@ -7,25 +7,7 @@ open Rtosc
 
 /-! ### stores -/
 
-theorem stores_eq : ∀ (l : Bytes) (w : BW) (i : Nat), i + l.length ≤ w.buf.length →
-    w.stores i l = ⟨w.buf.take i ++ l ++ w.buf.drop (i + l.length), w.oob⟩ := by
-  intro l
-  induction l with
-  | nil => intro w i _; simp [BW.stores]
-  | cons b r ih =>
-    intro w i h
-    simp only [List.length_cons] at h
-    have hi : i < w.buf.length := by omega
-    simp only [BW.stores, BW.store, if_pos hi]
-    rw [ih _ (i + 1) (by simp; omega)]
-    simp only [List.length_cons]
-    have h1 : (w.buf.set i b).take (i + 1) = w.buf.take i ++ [b] := by
-      apply List.ext_getElem?
-      intro j
-      grind
-    have h2 : (w.buf.set i b).drop (i + 1 + r.length) = w.buf.drop (i + (r.length + 1)) := by
-      rw [List.drop_set_of_lt (by omega)]; congr 1; omega
-    rw [h1, h2]; simp
+-- `stores_eq` (inside the buffer `stores` is a splice) lives next to the model: Osc/Bundle.lean
 
 theorem stores_zeros (d l : Bytes) (k : Nat) (o : Bool) (h : l.length ≤ k) :
     (⟨d ++ zeros k, o⟩ : BW).stores d.length l = ⟨d ++ l ++ zeros (k - l.length), o⟩ := by
